@@ -542,12 +542,52 @@ func (s *SwapService) estimateMaximumSwapAmountSat(chain string) (uint64, error)
 	return 0, errors.New("invalid chain")
 }
 
+// swapIdKnown reports whether a swap with the given id is active or persisted
+// (finished swaps and swaps that are not yet recovered included).
+func (s *SwapService) swapIdKnown(swapId *SwapId) (bool, error) {
+	if _, err := s.GetActiveSwap(swapId.String()); err == nil {
+		return true, nil
+	}
+	_, err := s.swapServices.swapStore.GetData(swapId.String())
+	if err == nil {
+		return true, nil
+	}
+	if errors.Is(err, ErrDataNotAvailable) {
+		return false, nil
+	}
+	return false, err
+}
+
+// rejectKnownSwapId refuses a swap request that reuses the id of a swap we
+// already know, so that the existing swap can not be replaced.
+func (s *SwapService) rejectKnownSwapId(swapId *SwapId, peerId string) error {
+	known, err := s.swapIdKnown(swapId)
+	if err != nil {
+		return err
+	}
+	if !known {
+		return nil
+	}
+	err = fmt.Errorf("swap id %s is already in use", swapId.String())
+	msgBytes, msgType, merr := MarshalPeerswapMessage(&CancelMessage{
+		SwapId:  swapId,
+		Message: err.Error(),
+	})
+	if merr == nil {
+		s.swapServices.messenger.SendMessage(peerId, msgBytes, msgType)
+	}
+	return err
+}
+
 // OnSwapInRequestReceived creates a new swap-in process and sends the event to the swap statemachine
 func (s *SwapService) OnSwapInRequestReceived(swapId *SwapId, peerId string, message *SwapInRequestMessage) error {
 	var (
 		premiumValue int64
 		err          error
 	)
+	if err := s.rejectKnownSwapId(swapId, peerId); err != nil {
+		return err
+	}
 	// Network is the desired on-chain network to use. This can be:
 	// Bitcoin: mainnet, testnet, signet, regtest
 	// Liquid: The field is left blank as the asset id also defines the bitcoinNetwork.
@@ -659,6 +699,9 @@ func (s *SwapService) OnSwapOutRequestReceived(swapId *SwapId, peerId string, me
 		premiumValue int64
 		err          error
 	)
+	if err := s.rejectKnownSwapId(swapId, peerId); err != nil {
+		return err
+	}
 	// Network is the desired on-chain network to use. This can be:
 	// Bitcoin: mainnet, testnet, signet, regtest
 	// Liquid: The field is left blank as the asset id also defines the bitcoinNetwork.
